@@ -164,10 +164,14 @@ def main(ctx):
                     jobs.append({"kind": "clean", "layout": layout, "dir": d, "ser": ser,
                                  "payloads": pls})
             for layout in tamper_layouts:
+                # thorough: all 255 values for the default and split layouts; the prefix layout
+                # differs only in the key lookup and gets every single-bit mask + 0xff
+                lm = masks if (layout != "prefix" or tier != "thorough") else \
+                    [1, 2, 4, 8, 16, 32, 64, 128, 255]
                 for d in DIRECTIONS:
                     for c in range(chunks):
                         jobs.append({"kind": "tamper", "layout": layout, "dir": d, "ser": ser,
-                                     "masks": masks, "chunk": c, "chunks": chunks})
+                                     "masks": lm, "chunk": c, "chunks": chunks})
             for layout in ("default", "prefix", "split"):
                 for d in DIRECTIONS:
                     jobs.append({"kind": "faults", "layout": layout, "dir": d, "ser": ser})
